@@ -19,7 +19,7 @@ def sh(cmd, cwd=None, env=None, timeout=None):
 
 def main():
     src, pid, name = sys.argv[1], sys.argv[2], sys.argv[3]
-    no_tests = '--no-tests' in sys.argv
+    no_tests = '--no-tests' in sys.argv or '--recheck' in sys.argv
     extra = []
     for a in sys.argv:
         if a.startswith('--checks='):
@@ -77,7 +77,14 @@ def main():
                 shutil.rmtree(outd, ignore_errors=True)
                 if rc == 1 or prop != pid:
                     break
-        if ok:
+        if '--recheck' in sys.argv:
+            mp = os.path.join(ROOT, 'seeded', name, 'meta.json')
+            if os.path.exists(mp):
+                meta = json.load(open(mp))
+                meta.setdefault('checks_history', []).append(meta.get('checks', {}))
+                meta['checks'] = res.get('checks', {})
+                json.dump(meta, open(mp, 'w'), indent=1)
+        elif ok:
             dst = os.path.join(ROOT, 'seeded', name)
             os.makedirs(dst, exist_ok=True)
             for fn in ('patch.diff', 'demo.py'):
